@@ -355,6 +355,20 @@ Definition TransactionBodies (d : nat) := SArrOf 0 (TransactionBody d).
 Definition TransactionWitnessSets (d : nat) := SArrOf 0 (TransactionWitnessSet d).
 Definition TransactionUnspentOutput (d : nat) := arr [TransactionInput; TransactionOutput d].
 
+Definition ScriptPubkey := var [(0, [H28])].
+Definition ScriptAll (d : nat) := var [(1, [SArrOf 0 (NativeScript d)])].
+Definition ScriptAny (d : nat) := var [(2, [SArrOf 0 (NativeScript d)])].
+Definition ScriptNOfK (d : nat) := var [(3, [U32; SArrOf 0 (NativeScript d)])].
+Definition TimelockStart := var [(4, [U64])].
+Definition TimelockExpiry := var [(5, [U64])].
+Definition AssetNames := SArrOf 0 AssetNameS.
+Definition GenesisHashes := SArrOf 0 H28.
+Definition ScriptHashes := SArrOf 0 H28.
+Definition RewardAddresses := SArrOf 0 RewardAddressS.
+Definition TransactionMetadatumLabels := SArrOf 0 U64.
+Definition BigNum := U64.
+Definition VersionedBlock (d : nat) := arr [U32; BlockPraos d].
+
 Definition ledger_schemas_more (d : nat) : list schema := [
   BlockPraos d; StakeRegistration; StakeDeregistration; StakeDelegation; PoolParams; PoolRegistration; PoolRetirement;
   GenesisKeyDelegation; MoveInstantaneousRewardsCert; VoteDelegation; StakeAndVoteDelegation;
@@ -364,4 +378,6 @@ Definition ledger_schemas_more (d : nat) : list schema := [
   ParameterChangeAction; HardForkInitiationAction; TreasuryWithdrawalsAction; NoConfidenceAction;
   UpdateCommitteeAction; NewConstitutionAction; MetadataList d; MetadataMap d; PlutusMap d; ConstrPlutusData d;
   BigInt; Redeemer d; RedeemerTag; Language; CostModel; NetworkId; Vkey; AssetNameS; PlutusScriptBytes;
-  MIRToStakeCredentials; TransactionBodies d; TransactionWitnessSets d; TransactionUnspentOutput d].
+  MIRToStakeCredentials; TransactionBodies d; TransactionWitnessSets d; TransactionUnspentOutput d;
+  ScriptPubkey; ScriptAll d; ScriptAny d; ScriptNOfK d; TimelockStart; TimelockExpiry; AssetNames; GenesisHashes;
+  ScriptHashes; RewardAddresses; TransactionMetadatumLabels; BigNum; VersionedBlock d].
